@@ -8,7 +8,7 @@
    The per-history agreement of model and server (fresh views at quiescence points included) is checked on every run. *)
 From Coq Require Import List NArith Bool.
 From Gluon Require Import Gen.FactsFilters Model.FilterPolicy Model.Responders Model.Session Proofs.MirrorProofs Proofs.PopProofs
-  Proofs.ConvergeProofs Proofs.MembershipProofs Proofs.SessionWitness.
+  Proofs.ConvergeProofs Proofs.MembershipProofs Proofs.ViewProofs Proofs.StoreViewProofs Proofs.SessionWitness.
 Import ListNotations.
 Open Scope N_scope.
 
@@ -61,6 +61,20 @@ Theorem C02_membership_converges_partial : forall o mb snap0 us, Forall (foreign
 Proof. exact observer_membership. Qed.
 Print Assumptions C02_membership_converges_partial.
 
+(* Convergence of the WHOLE VIEW (messages, UIDs, order and flags) — partial statement, proved: as above, and the
+   snapshot after the permitting flush is exactly what the plain meaning of the updates (view_apply: insert by UID
+   without \Recent / remove / set, add or remove flags of the messages that are there, \Deleted untouched by a change
+   that stems from another mailbox) makes of snap0. No update is lost or misapplied by filters, queue or responders.
+   Missing for the full statement: own commands interleaved with the deliveries (refuted in general, see above) and the
+   database side for every command (proved for rows and for STORE, below; compared on every run for the rest). *)
+Theorem C02_view_converges_partial : forall o mb snap0 us, Forall (foreign_upd o) us ->
+  exists st' out,
+    flush_raw true (mkS snap0 (deliver_all o mb snap0 us [])) = Some (st', out) /\
+    s_res st' = [] /\
+    s_snap st' = fold_left (fun v u => view_apply mb u v) us snap0.
+Proof. exact observer_view. Qed.
+Print Assumptions C02_view_converges_partial.
+
 (* deliver_all is what the model's delivery step does (one update, queue head first) *)
 Theorem C02_deliver_step : forall o mb snap0 u pre q,
   apply_update u o (obs mb snap0 pre q) false = Some (obs mb snap0 (pre ++ delivered u o (obs mb snap0 pre q)) q, []).
@@ -84,6 +98,26 @@ Theorem C02_add_row_matches_update : forall w mb m,
   rows_ids (mbox_of w1 mb) = mem_apply mb (UExists mb items None) (rows_ids (mbox_of w mb)).
 Proof. exact add_row_matches_update. Qed.
 Print Assumptions C02_add_row_matches_update.
+
+(* the database side of STORE: what a newly opened session sees after the flag action (store_db) is what the plain
+   meaning of the emitted state update (its parts computed by store_parts: one part per flag for +FLAGS / -FLAGS, over
+   the messages that lack / have the flag) makes of what it saw before: same messages, UIDs and order; for every message
+   and every flag other than \Recent the same membership. Hypotheses (decidable; hold in the worlds the model's runs
+   produce, see the Example below): every message of the mailbox has its shared flags recorded, and \Deleted, which is
+   kept per mailbox, is never among the shared flags. *)
+Theorem C02_store_matches_update : forall w sel ms op f og si,
+  flags_total_b w sel = true -> no_shared_deleted_b w = true ->
+  same_view (fresh_view (store_db w sel ms op f) sel)
+            (view_apply sel (UFlags sel (store_parts w ms op f) og si) (fresh_view w sel)).
+Proof. exact store_matches_update_b. Qed.
+Print Assumptions C02_store_matches_update.
+
+Example C02_store_hypotheses_hold :
+  let h := [Cmd 0 (CSelect 0); Cmd 1 (CSelect 0); Cmd 1 (CAppend 0 [fl_deleted; 5]); Cmd 1 (CAppend 0 [fl_seen]);
+            Conn (XNew 0 [7]); Cmd 1 (CStore [1]%nat FAdd [fl_deleted; 9] false); Cmd 1 CExpunge] in
+  let '(w, _) := run (init_world 2 1) h in
+  flags_total_b w 0 = true /\ no_shared_deleted_b w = true /\ length (fresh_view w 0) = 2%nat.
+Proof. vm_compute. repeat split. Qed.
 
 (* the scenario of the repaired defect, on the world model: session 1 appends a message and expunges it before
    session 0 flushed its EXISTS; after draining and NOOP session 0's view equals the fresh view (empty) *)
